@@ -1253,7 +1253,10 @@ class Evaluator:
                 if is_c(a):
                     r = a[1] is None
                 elif a in st.notnone or a[0] in ('dict', 'list', 'tuple', 'set', 'bin', 'cmp', 'setitem', 'mut',
-                                                 'comp', 'func') or _is_array_expr(a):
+                                                 'comp', 'func') or _is_array_expr(a) or (
+                        a[0] == 'call' and a[1] in ('builtins.slice', 'builtins.dict', 'builtins.list', 'builtins.tuple',
+                                                    'builtins.set', 'builtins.range', 'builtins.len', 'builtins.int',
+                                                    'builtins.float', 'builtins.str', 'builtins.bool')):
                     r = False
                 if r is not None:
                     return r if op == 'is' else (not r)
@@ -2062,6 +2065,11 @@ def _is_array_expr(t):
         return True
     if t[0] == 'sub' and (t[2][0] in ('tuple', 'slice')) and _is_array_expr(t[1]):
         return True
+    # np.where(cond) / np.nonzero(cond) is a tuple of index arrays; its elements are arrays
+    if t[0] == 'call' and t[1] in ('numpy.where', 'numpy.nonzero', 'numpy.flatnonzero', 'numpy.argwhere') and len(t[2]) == 1:
+        return True
+    if t[0] == 'sub' and is_c(t[2]) and t[1][0] == 'call' and t[1][1] in ('numpy.where', 'numpy.nonzero') and len(t[1][2]) == 1:
+        return True
     return False
 
 
@@ -2260,6 +2268,12 @@ def canon_cmp(op, a, b):
 
 
 def _mk_attr(base, name):
+    # the fields of a slice object built with slice(a, b[, c])
+    if name in ('start', 'stop', 'step') and base[0] == 'call' and base[1] == 'builtins.slice' and not base[3] \
+            and 1 <= len(base[2]) <= 3:
+        a_ = base[2]
+        full = (NONE, a_[0], NONE) if len(a_) == 1 else (a_[0], a_[1], a_[2] if len(a_) == 3 else NONE)
+        return full[('start', 'stop', 'step').index(name)]
     # the shape of a fresh allocation with a literal shape tuple is that tuple; element stores keep it
     if name == 'shape':
         b = base
